@@ -30,7 +30,11 @@ impl ColumnIndex {
     }
 
     pub fn from_bytes(data: &[u8]) -> StorageResult<Self> {
-        // TODO(chi): error handling
+        if data.len() < INDEX_FOOTER_SIZE {
+            return Err(TracedStorageError::decode(
+                "failed to decode column index: shorter than its footer",
+            ));
+        }
         let mut index_data = &data[..data.len() - INDEX_FOOTER_SIZE];
         let mut footer = &data[data.len() - INDEX_FOOTER_SIZE..];
         if footer.get_u32() != SECONDARY_INDEX_MAGIC {
